@@ -465,6 +465,9 @@ struct VmWorld : HookSink {
     }
     if (mon_t > mon_stop_t) {
       mon_overrun = true;
+      // with stepping on, the next site executed is where the run stops: passing it means a line was not visited
+      if (stepping && c07_applicable && sites.count(G.ip[mon_stop_t]))
+        ctx.check(false, "C07", "stepping_visits_exact_lines", "stepping is on, but execute() passed the site at step " + std::to_string(mon_stop_t) + " (" + loc_str(sites[G.ip[mon_stop_t]]) + ") without stopping");
       ctx.check(false, "C06", "resume_stops_at_first_site", "execute() ran past the first requested stop (step " + std::to_string(mon_stop_t) + ", site " + std::to_string(G.ip[mon_stop_t]) + ")");
       ctx.abort_run();
     }
@@ -577,7 +580,7 @@ struct VmWorld : HookSink {
       bool expect = halt || stop_expected(pc);
       if (deep_monitor && !check_decode(*vm)) ctx.abort_run();
       uint64_t before = halt ? exec_state_hash(*vm) : 0;
-      set_phase(PH_VMRUN);
+      set_phase(PH_SESSION);
       bool r = vm->executeSingle();
       set_phase(PH_DEBUGGER);
       ctx.sim_steps++;
@@ -613,7 +616,7 @@ struct VmWorld : HookSink {
     bool was_at_halt = at_halt(t);
     uint64_t before = was_at_halt ? exec_state_hash(*vm) : 0;
     mon_on = true; mon_t = t; mon_stop_t = s; mon_overrun = false;
-    set_phase(PH_VMRUN);
+    set_phase(PH_SESSION);
     vm->execute();
     set_phase(PH_DEBUGGER);
     mon_on = false;
@@ -624,6 +627,9 @@ struct VmWorld : HookSink {
     int ip = VerifAccess::ip(*vm);
     if (mon_t != new_t || ip != G.ip[new_t]) {
       ctx.check(false, "C06", "resume_stops_at_first_site", "execute() from step " + std::to_string(t) + " stopped at step " + std::to_string(mon_t) + " (ip " + std::to_string(ip) + "), expected step " + std::to_string(new_t) + " (ip " + std::to_string(G.ip[new_t]) + ")");
+      // with stepping on, the next site executed is where the run stops: passing it means a line was not visited
+      if (stepping && c07_applicable && mon_t > new_t)
+        ctx.check(false, "C07", "stepping_visits_exact_lines", "stepping is on, but execute() from step " + std::to_string(t) + " passed the site at step " + std::to_string(new_t - 1) + " (" + loc_str(sites[G.ip[new_t - 1]]) + ") without stopping");
       // resynchronise if the machine is still on the path
       if (mon_t < G.len() && ip == G.ip[mon_t]) new_t = mon_t; else ctx.abort_run();
     }
@@ -963,6 +969,10 @@ Plan gen_vm_plan(const std::string &prop, Rng &rng, long long sub, const std::st
     mode = "to_end";
   }
 
+  if (prop == "C03" && (lay.seed >> 23) % 8 == 0) {
+    // many small routines, label names that are other label names plus digits
+    gp.min_defs = 10; gp.max_defs = 14; gp.max_stmts = 3; gp.max_depth = 1; gp.label_names = 1; gp.allow_jumps = true; gp.macros &= ~(unsigned)MF_ARITH;
+  }
   if (mode == "enum_short") { gp.max_stmts = (int)rng.range(1, 3); gp.max_defs = (int)rng.range(0, 1); gp.max_depth = 1; gp.macros = 0; lay.nfiles = 1; }
   Ast ast = generate_ast(rng, gp);
 
@@ -1027,6 +1037,21 @@ Plan gen_vm_plan(const std::string &prop, Rng &rng, long long sub, const std::st
     Op e2; e2.k = "execall"; e2.a = 2; p.ops.push_back(e2);
   } else if (mode == "stepping_run") {
     Op m; m.k = "stepmode"; m.a = 1; p.ops.push_back(m);
+    if ((lay.seed >> 17) % 3 == 0) {
+      // the same stepping run with debugger calls in between that do not move the machine and leave stepping on
+      int n = (int)((lay.seed >> 20) % 12) + 2;
+      uint64_t x = lay.seed;
+      for (int i = 0; i < n; i++) {
+        x = x * 6364136223846793005ULL + 1442695040888963407ULL;
+        Op e; e.k = "exec"; e.a = 1; p.ops.push_back(e);
+        Op o; int w = (int)((x >> 33) % 10);
+        if (w < 4) { o.k = "bp"; o.a = (long long)((x >> 40) % 64); o.b = (x >> 50) % 4 != 0; }
+        else if (w < 6) { o.k = "bpcur"; o.b = (x >> 50) % 2; }
+        else if (w < 8) o.k = "clear";
+        else o.k = "inspect";
+        p.ops.push_back(o);
+      }
+    }
     Op e; e.k = "execall"; e.a = thorough ? 6000 : 1500; p.ops.push_back(e);
     Op i; i.k = "inspect"; p.ops.push_back(i);
   } else if (mode == "sweep") {
